@@ -79,11 +79,13 @@ pub(crate) fn convert(
                 .unwrap_or(use_state.view_box)
         };
 
-        if let Some(ts) = viewbox_transform(node, child, &use_state) {
+        // The size of the `use` element itself is relative to the viewport the `use` is in,
+        // not to the one it establishes (`width="50%"` would be applied twice).
+        if let Some(ts) = viewbox_transform(node, child, state) {
             new_ts = new_ts.pre_concat(ts);
         }
 
-        if let Some(clip_rect) = get_clip_rect(node, child, &use_state) {
+        if let Some(clip_rect) = get_clip_rect(node, child, state) {
             let mut g = clip_element(node, clip_rect, orig_ts, &use_state, cache);
             g.abs_transform = parent.abs_transform;
 
